@@ -24,6 +24,7 @@ var (
 	errInjRead       = errors.New("injected read failure")
 	errInjConnClose  = errors.New("injected connection close failure")
 	errInjAgentClose = errors.New("injected agent close failure")
+	errInjAgentStart = errors.New("injected agent re-registration failure")
 	errConnClosed    = errors.New("sim connection closed")
 	errReadWake      = errors.New("sim read interrupted after Close began (WithNoConnClose precondition)")
 )
@@ -75,32 +76,33 @@ type cWrite struct {
 
 // cTx is the ledger entry of one Start / Do / Indicate call.
 type cTx struct {
-	idx          int
-	kind         cTxKind
-	id           [stun.TransactionIDSize]byte
-	task         int
-	snapshot     []byte
-	size         int
-	invoke       int // seq
-	invokeAt     time.Time
-	returned     bool
-	retSeq       int
-	ret          error
-	calls        []cCall
-	writes       []cWrite
-	rtoMin       time.Duration
-	rtoSet       []time.Duration
-	limit        int  // n: retransmission limit in force
-	afterClose   bool // began after the successful Close returned
-	doCbDone     bool
-	lb           []time.Time // lb[k]: lower bound of the clock reading taken for transmission k
-	writeFailed  bool
-	kc           bool // known-finding family K-c: a timeout callback for this id overlapped the processing of a datagram with this id or this transaction's own Start call
-	kcB          bool // a timeout event for this id began before the transaction's own Start call had completed its first write
-	firstWriteOK bool
-	cbBegun      int
-	reuseOf      int
-	protected    bool // the server answers and the network delivers that answer intact (nested Do from a handler)
+	idx              int
+	kind             cTxKind
+	id               [stun.TransactionIDSize]byte
+	task             int
+	snapshot         []byte
+	size             int
+	invoke           int // seq
+	invokeAt         time.Time
+	returned         bool
+	retSeq           int
+	ret              error
+	calls            []cCall
+	writes           []cWrite
+	rtoMin           time.Duration
+	rtoSet           []time.Duration
+	limit            int  // n: retransmission limit in force
+	afterClose       bool // began after the successful Close returned
+	doCbDone         bool
+	lb               []time.Time // lb[k]: lower bound of the clock reading taken for transmission k
+	writeFailed      bool
+	agentStartFailed bool
+	kc               bool // known-finding family K-c: a timeout callback for this id overlapped the processing of a datagram with this id or this transaction's own Start call
+	kcB              bool // a timeout event for this id began before the transaction's own Start call had completed its first write
+	firstWriteOK     bool
+	cbBegun          int
+	reuseOf          int
+	protected        bool // the server answers and the network delivers that answer intact (nested Do from a handler)
 }
 
 func (t *cTx) name() string {
@@ -192,18 +194,19 @@ type clientEngine struct {
 	readsBegun int
 
 	// ledgers
-	txs            []*cTx
-	byID           map[[stun.TransactionIDSize]byte]*cTx
-	setrtos        []*cSetRTO
-	closes         []*cClose
-	closeOK        *cClose
-	closeBegan     bool
-	cbActive       map[[stun.TransactionIDSize]byte]int
-	cbStack        map[int][]*cCallback
-	fallbackCalls  []cCall
-	idCounter      int
-	armedWriteFail int
-	armedReadFail  int
+	txs                 []*cTx
+	byID                map[[stun.TransactionIDSize]byte]*cTx
+	setrtos             []*cSetRTO
+	closes              []*cClose
+	closeOK             *cClose
+	closeBegan          bool
+	cbActive            map[[stun.TransactionIDSize]byte]int
+	cbStack             map[int][]*cCallback
+	fallbackCalls       []cCall
+	idCounter           int
+	armedWriteFail      int
+	armedReadFail       int
+	armedAgentStartFail int
 
 	phase         int
 	callers       []*verifrt.Task
@@ -347,6 +350,21 @@ func (a *wrapAgent) Close() error {
 
 func (a *wrapAgent) Start(id [stun.TransactionIDSize]byte, deadline time.Time) error {
 	verifrt.Yield(hsAgent)
+	e := a.e
+	// a failing re-registration (only inside the handling of a timeout event
+	// for this id): "the error of a failed retransmission"
+	if e.armedAgentStartFail > 0 {
+		if tk := e.r.Sim.Cur(); tk != nil {
+			if st := e.cbStack[tk.ID]; len(st) > 0 && st[len(st)-1].id == id && errors.Is(st[len(st)-1].err, stun.ErrTransactionTimeOut) {
+				e.armedAgentStartFail--
+				e.stats["fault_agent_reregistration_error"]++
+				if tx := e.byID[id]; tx != nil {
+					tx.agentStartFailed = true
+				}
+				return errInjAgentStart
+			}
+		}
+	}
 	return a.inner.Start(id, deadline)
 }
 
@@ -1054,6 +1072,11 @@ func (e *clientEngine) checkOutcome(tx *cTx, c *cCall) {
 		if !tx.writeFailed {
 			e.fail(tx, "C10", "outcome-foreign-write-error", "handler of %s received a write error although none of its writes failed", tx.name())
 		}
+	case errors.Is(c.err, errInjAgentStart):
+		e.stats["outcome_reregistration_error"]++
+		if !tx.agentStartFailed {
+			e.fail(tx, "C10", "outcome-foreign-reregistration-error", "handler of %s received a re-registration error although none of its retransmissions failed to register", tx.name())
+		}
 	case errors.Is(c.err, stun.ErrClientClosed) || errors.Is(c.err, stun.ErrAgentClosed):
 		e.stats["outcome_closed"]++
 		if !e.closeBegan {
@@ -1680,6 +1703,9 @@ func (e *clientEngine) Env() []EnvEvent {
 		if e.writeFailPct > 0 && e.armedWriteFail == 0 {
 			ev = append(ev, EnvEvent{Name: "arm-write-failure", Weight: 1 + e.writeFailPct/10, Do: func() { e.armedWriteFail = 1 + r.Choose(2, "nfail") }})
 		}
+		if e.writeFailPct > 0 && e.armedAgentStartFail == 0 {
+			ev = append(ev, EnvEvent{Name: "arm-agent-reregistration-failure", Weight: 1, Do: func() { e.armedAgentStartFail = 1 }})
+		}
 		if e.readFailPct > 0 && e.armedReadFail == 0 {
 			ev = append(ev, EnvEvent{Name: "arm-read-failure", Weight: 1, Do: func() { e.armedReadFail = 1 }})
 		}
@@ -1834,7 +1860,7 @@ func (e *clientEngine) Quiescent() bool {
 				e.startTx(tk, txStart, nil)
 				e.startTx(tk, txDo, nil)
 				e.startTx(tk, txIndicate, nil)
-				e.doClose(tk)
+				e.doClose2(tk, r.Pct(30, "post-finalizer"))
 				e.doSetRTO(tk)
 			}, r.Sim.Tasks[0])
 			return true
